@@ -48,8 +48,11 @@ def make_skeleton(spec):
     mid = cm(spec.get('mid'), 1) + cm(spec.get('mid2'), 4)
     inner = cm(spec.get('inner'), 2)
     src = head + 'const v1 = 0;\n' + BODIES[spec.get('body')].replace('@INNER@', inner).replace('@MID@', mid)
+    if spec.get('shebang'):
+        # a hashbang line is the first token of the file: the head comments then lead the first statement only
+        src = '#!/usr/bin/env node\n' + src
     opts = {'optimize': False}
-    sk = Skeleton('c15#%s|%s|%s|%s%s' % (spec.get('head'), spec.get('mid'), spec.get('inner'), spec.get('pragma'), ('|%s|%s' % (spec.get('head2'), spec.get('mid2')) if spec.get('head2') or spec.get('mid2') else '') + ('|' + spec['body'] if spec.get('body') else '')), src, leaves, opts,
+    sk = Skeleton('c15#%s|%s|%s|%s%s' % (spec.get('head'), spec.get('mid'), spec.get('inner'), spec.get('pragma'), ('|%s|%s' % (spec.get('head2'), spec.get('mid2')) if spec.get('head2') or spec.get('mid2') else '') + ('|' + spec['body'] if spec.get('body') else '') + ('|shebang' if spec.get('shebang') else '')), src, leaves, opts,
                   pragma=spec.get('pragma'), meta={'family': 'c15'})
     return sk
 
@@ -242,6 +245,14 @@ def jobs(tier):
             if n <= 7 or tier != 'quick':
                 out.append({'head': ('jsdoc', 'sym%d' % n), 'pragma': pragma})
             out.append({'mid': ('line', 'sym%d' % n), 'pragma': pragma})
+        for st in styles:
+            out.append({'head': (st, 'jsx'), 'pragma': pragma, 'shebang': True})
+            out.append({'head': (st, 'imp'), 'head2': (st, 'jsx2'), 'pragma': pragma, 'shebang': True})
+        out.append({'pragma': pragma, 'shebang': True})
+        out.append({'mid': ('block', 'jsx'), 'pragma': pragma, 'shebang': True})
+        out.append({'head': ('block', 'frag'), 'mid': ('line', 'jsx'), 'pragma': pragma, 'shebang': True})
+        out.append({'head': ('block', 'sym6'), 'pragma': pragma, 'shebang': True})
+        out.append({'head': ('line', 'sym5'), 'pragma': pragma, 'shebang': True})
         for body in ('dirs', 'misc'):
             out.append({'pragma': pragma, 'body': body})
             for st in styles:
